@@ -4,3 +4,5 @@ pub mod list;
 mod entity;
 mod node;
 mod pool;
+#[cfg(itree_verif)]
+pub mod verif;
